@@ -205,9 +205,27 @@ pub fn generic_checks(o: &Outcome) -> Vec<(String, String)> {
         if o.wire[..n] != PROTOCOL_HEADER[..n] {
             v.push(("wire:bad-protocol-header".to_string(), format!("stream starts with {:?}", &o.wire[..n])));
         } else if o.wire.len() > 8 {
-            let (_, _, err) = split_envelopes(&o.wire[8..]);
+            let (envs, _, err) = split_envelopes(&o.wire[8..]);
             if let Some(e) = err {
                 v.push(("wire:not-whole-frames".to_string(), e));
+            }
+            // each frame well formed: methods consume their payload exactly under the spec's
+            // field layout (walker independent of the client's generator), heartbeats are empty
+            // and on channel 0, content headers carry at least class, weight, size and flags
+            for e in &envs {
+                let bad = match e.ty {
+                    1 => match crate::wire::request_bits(&e.payload) {
+                        Err(m) if !m.starts_with("no schema") => Some(m),
+                        _ => None,
+                    },
+                    2 if e.payload.len() < 14 => Some("content header shorter than 14 bytes".to_string()),
+                    8 if e.chan != 0 || !e.payload.is_empty() => Some("heartbeat frame with a channel or a payload".to_string()),
+                    _ => None,
+                };
+                if let Some(m) = bad {
+                    v.push(("wire:malformed-frame".to_string(), format!("frame type {} on channel {} payload {:?}: {}", e.ty, e.chan, &e.payload[..e.payload.len().min(40)], m)));
+                    break;
+                }
             }
         }
     }
